@@ -2,11 +2,13 @@ SPECIFICATION Spec
 CONSTANTS
   ClassLevelPropagate = FALSE
   ParamResolve = TRUE
+  InitRestated = TRUE
   OriginFromSuper = FALSE
   AllowModifyBusy = FALSE
   Parent <- Chain3
   Mode = "methq"
-  QSels = {{1},{2},{3}}
+  QSels = {{3}}
+  Vias = {"api"}
   InstKeys = {}
   WithModify = FALSE
   AllFlags = FALSE
